@@ -127,9 +127,12 @@ func c01Run(r *zsim.Run) {
 				if r.Failed() {
 					return
 				}
-				outcome := zsim.Pick(o, 0, 1, 2, 2, 2, 3) // 0 nil 1 acceptable error 2 unacceptable 3 panic
+				outcome := zsim.Pick(o, 0, 1, 2, 2, 2, 3, 4) // 0 nil 1 acceptable error 2 unacceptable 3 panic 4 nil error that the caller's predicate rejects (a 5xx response)
 				dur := time.Duration(zsim.Pick(o, 0, 0, 1, 30, 400)) * time.Millisecond
 				api := o.Intn(6)
+				if outcome == 4 && api != 1 && api != 3 {
+					outcome = 0 // only the WithAcceptable forms take a predicate
+				}
 				viaRegistry := name != "anon" && o.Intn(2) == 0
 				ran := false
 				var reqStart, reqEnd int64
@@ -154,9 +157,19 @@ func c01Run(r *zsim.Run) {
 					case 2:
 						br.marks = append(br.marks, m)
 						return c01ErrBad
+					case 4:
+						br.marks = append(br.marks, m) // not ok: the predicate below rejects this call's nil error
+						return nil
 					}
 					br.marks = append(br.marks, m)
 					panic("protected-function-panic")
+				}
+				// the predicate is the caller's: this call's rejects a nil error (e.g. it looks at the response as well)
+				acceptable := func(err error) bool {
+					if outcome == 4 {
+						return false
+					}
+					return acceptable(err)
 				}
 				var fbErr error
 				fbRan := false
@@ -286,7 +299,7 @@ func c01Run(r *zsim.Run) {
 								r.Failf("panic-not-reraised", "the protected function panicked but the call returned %v", err)
 								return
 							}
-						} else if want := []error{nil, c01ErrSoft, c01ErrBad}[outcome]; err != want || panicked != nil {
+						} else if want := []error{nil, c01ErrSoft, c01ErrBad, nil, nil}[outcome]; err != want || panicked != nil {
 							r.Failf("wrong-result", "the protected function returned %v but the call returned %v (panic %v)", want, err, panicked)
 							return
 						}
